@@ -175,6 +175,7 @@ def parse(text):
 
 
 # ---------------------------------------------------------------- writer --
+INTS_RE = re.compile(r'^-?[0-9]+( +-?[0-9]+)* ?$')
 PLINE_RE = re.compile(r'p cnf (0|[1-9][0-9]*) (0|[1-9][0-9]*)\Z')
 CLAUSE_RE = re.compile(r'(-?[1-9][0-9]* )*0\Z')
 
@@ -202,6 +203,7 @@ def classify_output(text):
         O.problems.append(('last-line-unterminated', repr(lines[-1][:40])))
     else:
         lines.pop()
+    pending = []
     for i, line in enumerate(lines, start=1):
         if line.startswith('c'):
             O.ncomments += 1
@@ -213,15 +215,30 @@ def classify_output(text):
             if O.clauses:
                 O.problems.append(('clause-before-problem-line', 'line %d' % i))
             O.n, O.m = (int(x) for x in line.split(' ')[2:])
-        elif CLAUSE_RE.match(line):
+        elif CLAUSE_RE.match(line) and not pending:
             if O.nplines == 0:
                 O.problems.append(('clause-before-problem-line',
                                    'line %d %r' % (i, line[:40])))
             O.clauses.append([int(x) for x in line.split(' ')[:-1]])
+        elif INTS_RE.match(line):
+            # a clause laid out over several lines is DIMACS too (the property
+            # asks that every line that is not part of a clause be a comment):
+            # integer tokens accumulate until the terminating 0
+            if O.nplines == 0:
+                O.problems.append(('clause-before-problem-line',
+                                   'line %d %r' % (i, line[:40])))
+            for x in line.split():
+                if int(x) == 0:
+                    O.clauses.append(pending)
+                    pending = []
+                else:
+                    pending.append(int(x))
         else:
             O.problems.append(('non-comment-line', 'line %d %r is neither a comment, '
                                'nor the problem line, nor a clause line ending in 0'
                                % (i, line[:60])))
+    if pending:
+        O.problems.append(('non-comment-line', 'the last clause %r... is not terminated by 0' % (pending[:6],)))
     if O.nplines == 0:
         O.problems.append(('no-problem-line', ''))
     return O
